@@ -1,0 +1,14 @@
+// SPDX-FileCopyrightText: 2022 Kalle Fagerberg
+//
+// SPDX-License-Identifier: MIT
+
+//go:build go1.21
+
+package maps
+
+// Clear will delete all key-value pairs from a map, rendering it empty.
+func Clear[M ~map[K]V, K comparable, V any](m M) {
+	// The clear builtin also removes keys that are not equal to themselves
+	// (NaN), which a delete loop cannot reach.
+	clear(m)
+}
